@@ -18,7 +18,13 @@ Print Assumptions C05_tie_refresh_after_clock.
    the clock read, formatter exceptions are contained, and every statement is committed no later than
    grace after its timestamp was taken (WG: checked at each commit; trivially true when clock read and
    enqueue are one step), then the sequence of events the backend processes - hence the sequence of
-   statements it writes, backtrace replays aside - is sorted by timestamp. *)
+   statements it writes, backtrace replays aside - is sorted by timestamp.
+   For unbounded queues WG also asks, at the backend steps concerned, that the queue's answers agree with its
+   content: no read pass starts on a queue whose read would return nothing although a later node holds records
+   (u_blocked: only without chain following, D17 below), and at the batch-loop test empty() does not answer
+   "not empty" for a queue that holds nothing (nospur: a drained node whose unused successor has not been
+   switched to yet - the backend then only waits one more poll, which delays but cannot reorder on its own;
+   the premise is what the simulation proof needs). Both hold vacuously for bounded queues. *)
 Theorem C05_sorted : forall K, c_grace K <> 0 -> c_refresh2 K = true -> c_catch_all K = true ->
   forall s0 ops, init_ok K s0 -> pos_ops ops -> WG K s0 ops ->
   StronglySorted N.le (map ets (plog (run K s0 ops))).
